@@ -328,6 +328,146 @@ func c12FreshTypes(c *mon.Ctx) {
 	c.Count("fresh_type_first_sight_rounds")
 }
 
+// c12GrowingLists: goroutines walk lists, each round longer than any list
+// the process has walked before (300 ... 70000 elements), while others
+// evaluate quantifiers over short lists: process-wide tables that grow with
+// the largest index / length seen would be written while being read.
+var c12MaxList = 0
+
+func c12GrowingLists(c *mon.Ctx) {
+	steps := []int{300, 700, 1500, 4000, 9000, 20000, 40000, 66000, 70000, 90000}
+	next := steps[len(steps)-1] + c12MaxList/10 + 1000
+	for _, s := range steps {
+		if s > c12MaxList {
+			next = s
+			break
+		}
+	}
+	c12MaxList = next
+	const G = 12
+	texts := []string{`any l as i, v { v == 1 }`, `any l as v { v == 1 }`, `all l as i, _ { i != 99999999 }`, `any l as i, _ { i == LAST }`, `any s as i, v { v == 2 and i == 1 }`, `all s as v { v != 9 }`}
+	mkList := func(n int) map[string]interface{} {
+		l := make([]int, n)
+		l[n-1] = 1
+		return map[string]interface{}{"l": l, "s": []interface{}{1, 2, 3}}
+	}
+	var ready, done sync.WaitGroup
+	gate := make(chan struct{})
+	fails := make([]string, G)
+	ready.Add(G)
+	done.Add(G)
+	for gi := 0; gi < G; gi++ {
+		gi := gi
+		go func() {
+			defer done.Done()
+			n := 3 + gi
+			if gi%3 == 0 {
+				n = next - gi // the long walkers, each a different length
+			}
+			text := strings.ReplaceAll(texts[gi%len(texts)], "LAST", fmt.Sprintf("%d", n-1))
+			ev, err, pan, _ := createEval(text)
+			datum := mkList(n)
+			ready.Done()
+			<-gate
+			if pan != "" || err != nil {
+				fails[gi] = "create: " + fmt.Sprint(err) + pan
+				return
+			}
+			for k := 0; k < 3; k++ {
+				if o := evaluate(ev, datum); o.Class() != "T" {
+					fails[gi] = fmt.Sprintf("%s on a list of %d elements: %s (want T)", text, n, o.String())
+					return
+				}
+			}
+		}()
+	}
+	ready.Wait()
+	close(gate)
+	done.Wait()
+	for _, f := range fails {
+		if f != "" {
+			c.Violation("C12 concurrent-result-differs growing-lists", "a quantifier evaluated concurrently with walks over longer lists than ever before gave a wrong result", map[string]any{"failure": f, "longest_list": next})
+			break
+		}
+	}
+	c.Count("growing_list_rounds")
+	c.Add("longest_list_walked_concurrently", int64(next))
+}
+
+// c12ManyPatterns: goroutines create evaluators for more distinct patterns,
+// literals and selectors than any small cache holds (80 new ones per round,
+// recurring), concurrently, and use each at once: the evaluator must be the
+// one for ITS expression.
+var c12PatternBase = 0
+
+func c12ManyPatterns(c *mon.Ctx) {
+	base := c12PatternBase
+	c12PatternBase += 80
+	const G = 16
+	const P = 80
+	var ready, done sync.WaitGroup
+	gate := make(chan struct{})
+	fails := make([]string, G)
+	created := make([]int, G)
+	ready.Add(G)
+	done.Add(G)
+	for gi := 0; gi < G; gi++ {
+		gi := gi
+		go func() {
+			defer done.Done()
+			ready.Done()
+			<-gate
+			for k := 0; k < 120; k++ {
+				j := base + (gi*7+k*(1+gi%5))%P
+				name := fmt.Sprintf("p%d", j)
+				other := fmt.Sprintf("p%d", j+1)
+				var text string
+				switch (k + gi) % 4 {
+				case 0:
+					text = fmt.Sprintf(`x matches "^%s$"`, name)
+				case 1:
+					text = fmt.Sprintf(`x not matches "^%s$"`, other)
+				case 2:
+					text = fmt.Sprintf(`x == %s and m.%s == 1`, name, name)
+				case 3:
+					text = fmt.Sprintf(`"%s" in l and (any l as v { v matches "^%s$" })`, name, name)
+				}
+				ev, err, pan, _ := createEval(text)
+				if pan != "" || err != nil || ev == nil {
+					fails[gi] = "create " + text + ": " + fmt.Sprint(err) + pan
+					return
+				}
+				created[gi]++
+				yes := map[string]interface{}{"x": name, "m": map[string]interface{}{name: 1, other: 2}, "l": []interface{}{"q", name}}
+				no := map[string]interface{}{"x": other, "m": map[string]interface{}{name: 2, other: 1}, "l": []interface{}{"q", other}}
+				if o := evaluate(ev, yes); o.Class() != "T" {
+					fails[gi] = fmt.Sprintf("%s on x=%s: %s (want T)", text, name, o.String())
+					return
+				}
+				if o := evaluate(ev, no); o.Class() != "F" {
+					fails[gi] = fmt.Sprintf("%s on x=%s: %s (want F)", text, other, o.String())
+					return
+				}
+			}
+		}()
+	}
+	ready.Wait()
+	close(gate)
+	done.Wait()
+	for _, f := range fails {
+		if f != "" {
+			c.Violation("C12 concurrent-result-differs many-patterns", "an evaluator created concurrently with many others does not answer for its own expression", map[string]any{"failure": f})
+			break
+		}
+	}
+	n := 0
+	for _, k := range created {
+		n += k
+	}
+	c.Add("evaluators_created_concurrently_over_many_patterns", int64(n))
+	c.Count("many_pattern_rounds")
+}
+
 func c12Run(c *mon.Ctx, idx int) {
 	procs := []int{16, 4, 2}[idx%3]
 	old := runtime.GOMAXPROCS(procs)
@@ -335,6 +475,8 @@ func c12Run(c *mon.Ctx, idx int) {
 	c12ColdStart(c)
 	c12FreshTypes(c)
 	c12FilterArrays(c)
+	c12GrowingLists(c)
+	c12ManyPatterns(c)
 	r := c.RNG(idx)
 	nEval := tierN(c.Tier, 110, 600)
 	G := tierN(c.Tier, 12, 24)
@@ -508,7 +650,7 @@ func init() {
 		SingleProcess: true,
 		Extra:         map[string]any{"race": true},
 		Required: func(tier string) []string {
-			return []string{"evaluators_shared", "cold_start_concurrent_creations", "shared_filter_over_mixed_container_types", "fresh_type_first_sight_rounds", "evaluator_kind:unknown+quantifier", "evaluator_kind:unknown+hook+quantifier", "concurrent_calls", "overlapping_call_pairs", "evaluators_with_overlapping_first_calls", "race_log_inspected", "evaluator_kind:fixed", "evaluator_kind:random", "evaluator_kind:hook-gosched", "evaluator_kind:unknown", "evaluator_kind:tag"}
+			return []string{"evaluators_shared", "cold_start_concurrent_creations", "shared_filter_over_mixed_container_types", "fresh_type_first_sight_rounds", "growing_list_rounds", "many_pattern_rounds", "evaluator_kind:unknown+quantifier", "evaluator_kind:unknown+hook+quantifier", "concurrent_calls", "overlapping_call_pairs", "evaluators_with_overlapping_first_calls", "race_log_inspected", "evaluator_kind:fixed", "evaluator_kind:random", "evaluator_kind:hook-gosched", "evaluator_kind:unknown", "evaluator_kind:tag"}
 		},
 		Post: func(a *mon.Agg) {
 			if a.Counters["harness_only_race_blocks"] > 0 {
